@@ -424,7 +424,11 @@ fn signzone_event(w: &mut TraceWriter, rng: &mut Rng, reals: &[realkeys::RealKey
                 for k in (1..back.len()).rev() {
                     back.swap(k, rng.below(k as u64 + 1) as usize);
                 }
-                ops.insert(at, (*rng.pick(&["remove_all", "remove_first", "remove_all_any"]), vec![i]));
+                // what is removed is what arrives again: removing every type at the owner
+                // goes with the re-arrival of every record of the owner (else an apex SOA
+                // would be lost and the signer rightly refuses the zone)
+                let op = if any { "remove_all_any" } else { *rng.pick(&["remove_all", "remove_first"]) };
+                ops.insert(at, (op, vec![i]));
                 ops.insert(at + 1, (if rng.chance(1, 2) { "insert" } else { "extend" }, back));
             }
         }
